@@ -29,7 +29,7 @@ ASSUMPTIONS = [
 BUDGET = {"quick": 80, "thorough": 900}
 ROUNDS = {"thorough": 3}
 FLOORS = {"evaluations_compared": {"quick": 150, "thorough": 1200}, "in_denormal_band": {"quick": 20, "thorough": 150},
-          "beyond_underflow": {"quick": 10, "thorough": 60}, "history_steps": {"quick": 60, "thorough": 400}}
+          "beyond_underflow": {"quick": 10, "thorough": 60}, "history_steps": {"quick": 60, "thorough": 400}, "nearly_constant_columns": {"quick": 15, "thorough": 100}}
 
 LN10 = math.log(10.0)
 BAND = (math.log10(5e-324), math.log10(2.2250738585072014e-308))
@@ -55,6 +55,16 @@ def cases(tier, seed):
                 out.append({"shape": shape, "model": model, "scale": float(scales[int(rng.integers(4))]), "target": float(t),
                             "seed": int(rng.integers(2**31)), "nsites": int(rng.integers(2, 5)),
                             "history": bool(rng.random() < 0.5), "batch": bool(rng.random() < 0.3), "conserved": bool(rng.random() < 0.4), "dup": bool(rng.random() < 0.5)})
+    # nearly constant columns (one taxon differs) under models with a rate-0 category: inside the large constant clade the variable
+    # categories fall hundreds of orders of magnitude below the invariant one, which then dies where the odd taxon joins
+    k = 0
+    for shape in shapes:
+        for model in ("JC69+I", "HKY+I", "GTR+W4"):
+            for t in ([-330.0, -600.0] if tier == "quick" else [-310.0, -330.0, -400.0, -600.0, -1000.0]):
+                for odd in (["last"] if tier == "quick" else ["first", "middle", "last"]):
+                    k += 1
+                    out.append({"shape": shape, "model": model, "scale": float([0.5, 1.0][k % 2]), "target": t, "seed": int(rng.integers(2**31)), "nsites": 2,
+                                "history": bool(k % 3 == 0), "batch": bool(k % 5 == 0), "conserved": False, "dup": False, "odd": odd})
     # far beyond underflow (large trees): few cases
     for i in range(2 if tier == "quick" else 12):
         out.append({"shape": shapes[i % 3], "model": models[i % 5], "scale": 1.0, "target": -1000.0, "seed": int(rng.integers(2**31)),
@@ -77,6 +87,8 @@ def make(case, N):
     prng = np.random.default_rng(case["seed"])
     if m == "JC69":
         subst, site = {"kind": "JC69"}, {"kind": "constant"}
+    elif m == "JC69+I":
+        subst, site = {"kind": "JC69"}, {"kind": "invariant", "pinv": 0.2}
     elif m == "HKY+I":
         subst, site = {"kind": "HKY", "kappa": 3.0, "pi": [0.1, 0.2, 0.3, 0.4]}, {"kind": "invariant", "pinv": 0.3}
     elif m.startswith("HKY"):
@@ -92,6 +104,10 @@ def make(case, N):
     maj = drng.integers(0, 4, size=S)
     dev = drng.random((4096 * 2, S)) < 0.6
     alt = drng.integers(0, 4, size=(4096 * 2, S))
+    if case.get("odd"):
+        dev[:, :] = False
+        dev[{"first": 0, "middle": N // 2, "last": N - 1}[case["odd"]], 0] = True  # column 0: one taxon differs; the other columns are constant
+        alt[:, 0] = (maj[0] + 1) % 4
     if case.get("conserved"):
         dev[:, 0] = False  # one fully conserved column next to the variable ones: site likelihoods hundreds of orders of magnitude apart
     seqs = {}
@@ -149,7 +165,7 @@ def run_case(case):
     sys.setrecursionlimit(50000)
     V = []
     C = {"evaluations_compared": 0, "in_denormal_band": 0, "beyond_underflow": 0, "representable": 0, "history_steps": 0,
-         "batched": 0, "forced_rescale": 0, "ref_evaluations": 0, "rescale_switches": 0}
+         "batched": 0, "forced_rescale": 0, "nearly_constant_columns": int(bool(case.get("odd"))), "ref_evaluations": 0, "rescale_switches": 0}
     N, got, nref = locate(case)
     C["ref_evaluations"] += nref
     c = make(case, N)
